@@ -1144,19 +1144,55 @@ func trustPoolRule(r *engine.Report, p *engine.Program) {
 			return
 		}
 		n++
-		okPool := false
-		if c, isC := engine.Unwrap(st.Val).(*ssa.Call); isC && engine.IsCallTo(c.Common(), "crypto/x509.NewCertPool") {
-			okPool = true
+		// fromOption: the PEM bytes are os.ReadFile(cfg.<same name>)
+		fromOption := func(v ssa.Value) bool {
+			if e, isE := engine.Unwrap(v).(*ssa.Extract); isE {
+				if rf, isRF := e.Tuple.(*ssa.Call); isRF && engine.IsCallTo(rf.Common(), "os.ReadFile") {
+					if f, _ := engine.FieldOfLoad(rf.Common().Args[0]); f != nil && f.Name() == fv.Name() {
+						return true
+					}
+				}
+			}
+			return false
 		}
-		// filled from the option of the same name
-		filled := false
-		for _, ci := range engine.CallsIn(fn) {
-			if engine.IsCallTo(ci.Common(), "(*crypto/x509.CertPool).AppendCertsFromPEM") && engine.Unwrap(ci.Common().Args[0]) == engine.Unwrap(st.Val) {
-				// bytes come from os.ReadFile(cfg.<same name>)
-				if e, isE := engine.Unwrap(ci.Common().Args[1]).(*ssa.Extract); isE {
-					if rf, isRF := e.Tuple.(*ssa.Call); isRF && engine.IsCallTo(rf.Common(), "os.ReadFile") {
-						if f, _ := engine.FieldOfLoad(rf.Common().Args[0]); f != nil && f.Name() == fv.Name() {
-							filled = true
+		// freshPoolFilledFrom: in function g, value v is x509.NewCertPool() and is filled by AppendCertsFromPEM(bytes) with bytesOK(bytes)
+		freshPoolFilledFrom := func(g *ssa.Function, v ssa.Value, bytesOK func(ssa.Value) bool) (bool, bool) {
+			c, isC := engine.Unwrap(v).(*ssa.Call)
+			if !isC || !engine.IsCallTo(c.Common(), "crypto/x509.NewCertPool") {
+				return false, false
+			}
+			for _, ci := range engine.CallsIn(g) {
+				if engine.IsCallTo(ci.Common(), "(*crypto/x509.CertPool).AppendCertsFromPEM") && engine.Unwrap(ci.Common().Args[0]) == engine.Unwrap(v) && bytesOK(ci.Common().Args[1]) {
+					return true, true
+				}
+			}
+			return true, false
+		}
+		okPool, filled := freshPoolFilledFrom(fn, st.Val, fromOption)
+		if !okPool {
+			// a private helper that builds the pool from the bytes it is given
+			if c, isC := engine.Unwrap(st.Val).(*ssa.Call); isC {
+				if h := c.Common().StaticCallee(); h != nil && inReceptor(h) && len(h.Blocks) > 0 && h.Object() != nil && !h.Object().Exported() {
+					for ai, a := range c.Common().Args {
+						if !fromOption(a) || ai >= len(h.Params) {
+							continue
+						}
+						hp := h.Params[ai]
+						all, n := true, 0
+						for _, ret := range engine.Returns(h) {
+							for _, res := range ret.Results {
+								if engine.IsNilConst(res) || res.Type().String() != "*crypto/x509.CertPool" {
+									continue
+								}
+								n++
+								p1, p2 := freshPoolFilledFrom(h, res, func(b ssa.Value) bool { return engine.Unwrap(b) == ssa.Value(hp) })
+								if !p1 || !p2 {
+									all = false
+								}
+							}
+						}
+						if all && n > 0 {
+							okPool, filled = true, true
 						}
 					}
 				}
